@@ -177,7 +177,7 @@ def parse_zlist(out: str) -> list[int] | None:
 
 
 def run_cases(tag: str, imports: str, model: str, cases: list[tuple[str, str]], shard: int = 400,
-              timeout: int = 900, keep: bool = False):
+              timeout: int = 900, keep: bool = False, in_type: str | None = None):
     """Evaluate `model input` against the implementation's observation for every case.
     cases: list of (input term, expected val literal).  Returns (bad case indices, errors)."""
     shards = [cases[i:i + shard] for i in range(0, len(cases), shard)]
@@ -185,7 +185,8 @@ def run_cases(tag: str, imports: str, model: str, cases: list[tuple[str, str]], 
     def one(k):
         body = ";\n ".join(f"({i}, {o})" for i, o in shards[k])
         text = (HEADER + imports + "\n" +
-                f"Definition cases := [\n {body}\n].\n" +
+                (f"Definition cases : list (({in_type}) * val) := [\n {body}\n].\n" if in_type else
+                 f"Definition cases := [\n {body}\n].\n") +
                 f"Eval vm_compute in (bad_indices ({model}) cases).\n")
         rc, out = coqc_text(f"{tag}_{k}", text, timeout)
         if rc != 0:
